@@ -18,6 +18,14 @@ class SymCtx(CtxBase):
         self.trivial = 0
         self._signed_names = set()
 
+    # ---- allocation limit (C19) -------------------------------------------------------
+    def alloc_begin(self, limit):
+        core.ALLOC_LIMIT[0] = limit
+
+    def alloc_end(self):
+        core.ALLOC_LIMIT[0] = None
+        return False
+
     # ---- decoy runs (api.run_harness) ----------------------------------------------
     def decoy_ctx(self, dcfg):
         sub = SymCtx(dcfg, self.ex)
